@@ -648,6 +648,8 @@ void run_crash_case(Choices& c, Report& r)
   static char const* const hl[] = {"none", "named", "missing"};
   std::string const hlogger = hl[c.pick(3)];
   bool const per_thread_loggers = !c.flip(2, 3);
+  // the signal clause holds whatever wait_for_queues_to_empty_before_exit says (the handler flushes); stop/exit need it on
+  bool const signals_without_exit_wait = c.flip(1, 3);
 
   for (unsigned t = 0; t < T; ++t)
   {
@@ -664,7 +666,9 @@ void run_crash_case(Choices& c, Report& r)
          (com.small_queue ? "small" : "default") + " level=" + com.level + " wbuf=" + std::to_string(com.wbuf) +
          " backend{mode=" + std::to_string(be.mode) + backend_kv(be) + (be.mode == 3 ? " drain" : "") + "} handler{" +
          (gen_handler ? "on" : "only-for-signals") + " timeout=" + std::to_string(timeout) + " logger=" + hlogger + "} loggers=" +
-         (per_thread_loggers ? "per_thread" : "shared") + " delivery=" + delivery);
+         (per_thread_loggers ? "per_thread" : "shared") + " delivery=" + delivery +
+         (signals_without_exit_wait ? " signals:wait_for_queues_to_empty_before_exit=false" : ""));
+  if (signals_without_exit_wait) r.label("signal_without_exit_wait_option");
   for (unsigned t = 0; t < T; ++t)
     r.line("  thread " + std::to_string(t) + ": n=" + std::to_string(th[t].n) + " pre=" + std::to_string(th[t].pre) +
            (th[t].exits ? " exits" : " parks") + " sizes=" + sizes_csv(th[t].sizes));
@@ -707,6 +711,7 @@ void run_crash_case(Choices& c, Report& r)
         " sizes=" + sizes_csv(th[t].sizes) + "\n";
       if (t != p.actor && th[t].exits && p.pre[t] == th[t].n) any_exited_thread = true;
     }
+    if (is_signal(p.kind) && signals_without_exit_wait) s += "exitwait 0\n";
     s += std::string{"event kind="} + kKindName[p.kind] + " actor=" + std::to_string(p.actor) + " delivery=" + delivery +
       " drain=" + (be.mode == 3 ? "1" : "0") + " prealloc=" + ((is_signal(p.kind) && p.boundary == 0) ? "1" : "0") + "\n";
     runs[i].spec_body = s;
